@@ -402,8 +402,9 @@ func scenDirected(seed uint64, e *ctxEnv, idx int, which string) {
 			e.st.Fail("disposed-context-did-further-work", desc, rvString(o2.rv)+" / "+rvString(o3.rv), "Rebuild yields nothing and Watch fails after Dispose")
 		}
 	case "cancel-during-dispose":
-		// KNOWN FINDING replay: the full-strength statement "Cancel returns only
-		// after the running build has ended" fails once a Dispose is in progress
+		// replay of a former finding (fixed in /repo by "fix: Cancel and a second
+		// Dispose must wait for the running build"): Cancel used to return at
+		// once when a Dispose was in progress
 		a := hold()
 		d := c.async(ctx, "dispose")
 		settle()
